@@ -107,6 +107,7 @@ class RProp(Prop):
                    "tags": {}, "nontrivial": None, "traces": 1}
             notes = r["notes"]
             oc = (notes.get("outcome") or ["?"])[0]
+            res["raise_type"] = (notes.get("outcome") or [None, None, None])[2] if oc == "raise" and len(notes.get("outcome")) > 2 else None
             jobs = cfg["jobs"]
             res["tags"] = {"jobs": len(jobs) - 1, "outcome": oc,
                            "depth": max(self._depth(cfg, i) for i in range(len(jobs))),
@@ -267,7 +268,7 @@ PROPS = {
                       "acceptance up to level 2 compares the timeout argument of every asyncio.wait call and the instant of "
                       "every clock jump. Non-trivial = some scheduler has a timeout.",
                  nontrivial=lambda cfg, r: any(j["sched"] and j["timeout"] is not None for j in cfg["jobs"])),
-    "C09": RProp("C09", 2, [52, 51, 111, 41], oracles=['no_start_after_exit'], profile={"forever": 0.45, "never": 0.3, "window": 0.5, "nested": 0.3},
+    "C09": RProp("C09", 2, [52, 51, 111, 41], oracles=['no_start_after_exit', 'success_complete'], profile={"forever": 0.45, "never": 0.3, "window": 0.5, "nested": 0.3},
                  rule="C09: at the wake that completes the non-forever jobs only forever jobs are pending and all are "
                       "cancelled there; none starts later; nothing below a finished run is live. Non-trivial = at least one "
                       "forever job.",
